@@ -1173,7 +1173,8 @@ func checkCertMatch(r *Report, sc *Scope, rule string) {
 	// functions it calls are analysed as part of it (inlining bound 3), so splitting it up stays silent
 	var cands []*ssa.Function
 	for _, fn := range p.FuncsCalling("(*math/big.Int).Cmp") {
-		if fn.Pkg != nil && fn.Pkg.Pkg.Path() == modPath+"/xmlenc" && sc.Decrypt[fn] {
+		// (in package xmlenc, or in an internal package of the module its helpers were moved to)
+		if fn.Pkg != nil && (fn.Pkg.Pkg.Path() == modPath+"/xmlenc" || strings.HasPrefix(fn.Pkg.Pkg.Path(), modPath+"/internal/")) && sc.Decrypt[fn] {
 			cands = append(cands, fn)
 		}
 	}
